@@ -68,11 +68,15 @@ structure St where
   read : Nat
   bms : List V
 
+/-- header from `data[:4]`; the bitmaps end at the element's own Length (an element longer than the data is an error);
+    a trailing fragment of fewer than 4 bytes inside the element is ignored -/
 def unmarshal (recv : V) (data : Slice) : R V := do
   let hdrRecv := match recv with | .obj _ (h :: _) => h | _ => .nil
   let d4 ← data.uptoR 4
   let hdr ← HelloElemHeader.unmarshal hdrRecv d4
-  let st ← goLoop (σ := St) (data.len + 1) (fun s => s.read < data.len) (·.read)
+  let length := match hdr with | .obj _ [_, .num l] => l | _ => 0
+  if length > data.len then .err else do
+  let st ← goLoop (σ := St) (data.len + 1) (fun s => s.read + 4 ≤ length) (·.read)
     (fun s => do
       let w ← data.u32In s.read (s.read + 4)
       pure { read := s.read + 4, bms := s.bms ++ [V.u32 w] })
@@ -121,7 +125,7 @@ structure St where
 def unmarshal (recv : V) (data : Slice) : R V := do
   let hdrRecv := match recv with | .obj _ (h :: _) => h | _ => Header.zero
   let d0 ← data.fromR 0
-  -- err := h.Header.UnmarshalBinary(data[next:])   (the error is only returned at the end)
+  -- err := h.Header.UnmarshalBinary(data[next:])   (this error is only returned at the end, if no element resets it)
   let (hdr, e0) ← match Header.unmarshal hdrRecv d0 with
     | .ok h => (.ok (h, false) : R (V × Bool))
     | .err => .ok (hdrRecv, true)
@@ -130,29 +134,18 @@ def unmarshal (recv : V) (data : Slice) : R V := do
   let st ← goLoop (σ := St) (data.len + 1) (fun s => s.next < data.len) (·.next)
     (fun s => do
       let d ← data.fromR s.next
-      -- e := NewHelloElemHeader(); e.UnmarshalBinary(data[next:])   (error ignored: e keeps its defaults)
-      let e ← match HelloElemHeader.unmarshal HelloElemHeader.new d with
-        | .ok h => (.ok h : R V)
-        | .err => .ok HelloElemHeader.new
-        | .panic => .panic
-        | .spin => .spin
+      -- e := NewHelloElemHeader(); an undecodable element header (fewer than 4 bytes left) is an error
+      let e ← HelloElemHeader.unmarshal HelloElemHeader.new d
       match e with
-      | .obj _ [.num 1, _] =>
-        -- err = v.UnmarshalBinary(data[next:]); next += int(v.Len())
-        match HelloElemVersionBitmap.unmarshal HelloElemVersionBitmap.new d with
-        | .ok v => do
-          let l ← HelloElemVersionBitmap.len v
-          pure { next := s.next + l.toNat, elems := s.elems ++ [v], err := false }
-        | .err =>
-          -- cannot happen (the 4-byte slice always satisfies the inner length check); kept for fidelity
-          .ok { next := s.next + 8, elems := s.elems ++ [HelloElemVersionBitmap.new], err := true }
-        | .panic => .panic
-        | .spin => .spin
-      | .obj _ [_, .num elen] =>
-        -- unknown element type: skipped by its declared length (an impossible length is an error)
-        if elen < 4 then .err else .ok { s with next := s.next + elen }
-      | _ => .panic
-    )
+      | .obj _ [.num ty, .num elen] =>
+        if elen < 4 then .err else
+        -- elements are padded to a multiple of 8 bytes: next += (int(e.Length) + 7) / 8 * 8
+        let adv := (elen + 7) / 8 * 8
+        if ty = 1 then do
+          let v ← HelloElemVersionBitmap.unmarshal HelloElemVersionBitmap.new d
+          pure { next := s.next + adv, elems := s.elems ++ [v], err := false }
+        else .ok { s with next := s.next + adv }
+      | _ => .panic)
     { next := 8, elems := [], err := e0 }
   if st.err then .err else pure (.obj "Hello" [hdr, .list st.elems])
 
